@@ -651,6 +651,14 @@ def c02():
     # volumes larger than 4 GiB: a file in the first clusters and files beyond the 4 GiB mark (device offsets need more than 32 bits)
     lg = [gen.large_program(rng, "c02-large-%s-%s" % (k, h), k, h) for k in ("4g", "1t") for h in ("4g", "last", "before_last")]
     res.append(("io-large", core.campaign("io-large", lg, wd)))
+    # every device call of a multi-cluster write interrupted once (EINTR-like): the looping callers repeat the piece, the file reads back
+    iw = []
+    for kname in ("K1b", "K3", "K5"):
+        for q in gen.intr_write_programs("intr-write-%s" % kname, gen.K(kname), CS[kname]):
+            q.pop("crash", None)
+            q["cfg"] = {k: v for k, v in q["cfg"].items() if k != "wlog"}
+            iw.append(q)
+    res.append(("io-intr-write", core.campaign("io-intr-write", iw, wd)))
     # a root directory that ends inside a sector fills up next to a file in the first data clusters
     res.append(("io-root-tail", core.campaign("io-root-tail", [gen.root_tail_program(rng, "root-tail-%d" % i) for i in range(scale(3, 12))], wd)))
     # a device call of a growing write fails, the write is repeated, other files grow: no chain may lead into a free cluster
